@@ -165,6 +165,12 @@ Definition rib_dead (r : rib) (nbr : node) : rib * bool :=
   let (r2, d2) := prune r1 in
   (r2, d2 || d1).
 
+(* ---- the per-neighbour state object (table.NeighborState), as far as ribUpdate looks at it ---- *)
+Record nstate := mkNs { ns_name : node; ns_advert : option (list adv_entry) }.
+
+(* NeighborState.delete (run by NeighborTable.Remove when checkDeadNeighbors removes the neighbour): ns.Advert = nil *)
+Definition ns_delete (ns : nstate) : nstate := mkNs (ns_name ns) None.
+
 (* ---- routers and the network ---- *)
 Record router := mkRouter { self : node; rrib : rib; nbrs : list node }.
 
@@ -196,6 +202,10 @@ Inductive event :=
 | Deliver (i j : node) (adv : list adv_entry)
                             (* i processes an advertisement received from j earlier (possibly stale, or
                                arbitrary: ribUpdate does not know where it came from)                  *)
+| LateUpdate (i j : node) (adv : list adv_entry)
+                            (* `go dv.ribUpdate(ns)` started by advertDataHandler for neighbour j (whose advertisement
+                               adv it had just stored in ns) runs only after checkDeadNeighbors removed j and
+                               deleted ns: ribUpdate is handed the stale, deleted state object                  *)
 | NbrUp (i j : node)        (* i creates a neighbour entry for j (first Sync Interest heard)           *)
 | NbrDead (i j : node)      (* i declares j dead (checkDeadNeighbors)                                   *)
 | RouterUp (i : node)       (* a router starts with fresh tables                                        *)
@@ -220,6 +230,17 @@ Definition step (S : net) (e : event) : net * bool :=
             let (rb, d) := rib_update i (rrib ri) j adv in
             (setr S (mkRouter i rb (nbrs ri)), d)
           else (S, false)
+      | None => (S, false)
+      end
+  | LateUpdate i j adv =>
+      match getr S i with
+      | Some ri =>
+          (* ribUpdate: `if ns.Advert == nil { return }` on the deleted object *)
+          match ns_advert (ns_delete (mkNs j (Some adv))) with
+          | None => (S, false)
+          | Some a => let (rb, d) := rib_update i (rrib ri) (ns_name (ns_delete (mkNs j (Some adv)))) a in
+                      (setr S (mkRouter i rb (nbrs ri)), d)
+          end
       | None => (S, false)
       end
   | NbrUp i j =>
